@@ -57,6 +57,6 @@ func TestC02(t *testing.T) {
 			}
 			return chainsim.HashPlan(p)
 		},
-		StallS: 120, Meta: meta,
+		StallS: 120, ShrinkBudget: 300, Meta: meta,
 	})
 }
